@@ -29,7 +29,7 @@ class Dmn(Family):
         masks = rng.choice(MASKSETS[nq])
         feat = PFB | rng.choice([0, 1 << 29, 3, (1 << 29) | W.VF_LOG_ALL])
         pfeat = W.PF_ALL
-        return nq, [VN(nq), VN(256), VN(feat), VN(pfeat), VL([VN(m) for m in masks]), VN(rng.below(2))], feat, masks
+        return nq, [VN(nq), VN(256), VN(feat), VN(pfeat), VL([VN(m) for m in masks]), VN(rng.below(4))], feat, masks
 
     def ring_history(self, rng, depth):
         nq, cfg, feat, masks = self.cfg(rng)
@@ -307,6 +307,25 @@ class Dmn(Family):
             table_op(False)
             for r in table[-2:]:
                 steps.append(st("write_mem", [r[0] + rng.choice([0, 8, r[1] - 8, r[1] // 2])], rng.bytes(8)))
+        if rng.chance(1, 5):
+            # a table that is valid region by region but not listed in ascending guest order, every region backed by its
+            # own file with known content: refused, or accepted with every region showing its own file
+            n = 2 + rng.below(2)
+            gs = sorted(rng.sample([0x0, 0x2000, 0x10000, 0x12000, 0x20000], n), reverse=True)
+            if rng.chance(1, 3) and n == 3:
+                gs = [gs[1], gs[2], gs[0]]
+            regs = []
+            for i, g in enumerate(gs):
+                f = 1 + i
+                off = rng.choice([0, 0x1000, 0x2000])
+                steps.append(st("guest_write", [f, off], bytes([0xc0 + f] * 8)))
+                regs.append([g, 0x1000, 0x7f0000400000 + 0x10000 * i, off, f])
+            steps.append(st("set_mem_table", [], b"", regs))
+            for r in regs:
+                steps.append(st("read_mem", [r[0], 8]))
+            steps.append(st("write_mem", [regs[0][0] + 0x10], bytes([0x5a] * 8)))
+            steps.append(st("guest_read", [regs[0][4], regs[0][3] + 0x10, 8]))
+            steps.append(st("guest_read", [regs[-1][4], regs[-1][3] + 0x10, 8]))
         steps.append(st("regions"))
         steps.append(st("snapshot"))
         steps.append(st("backend_log"))
@@ -420,12 +439,12 @@ class Dmn(Family):
         # routing: every mask set of the table x both vring kinds (complete), plus random mask sets
         for nq, sets in MASKSETS.items():
             for masks in sets:
-                for kind in (0, 1):
+                for kind in (0, 1, 2, 3):
                     out.append((self.routing_case(rng, nq, masks, kind), "routing"))
         for _ in range(40 if tier == "quick" else 600):
             nq = 1 + rng.below(6)
             masks = [rng.below(1 << (nq + 2)) for _ in range(1 + rng.below(3))]
-            out.append((self.routing_case(rng, nq, masks, rng.below(2)), "routing-random"))
+            out.append((self.routing_case(rng, nq, masks, rng.below(4)), "routing-random"))
         return out
 
     def nontrivial(self, args, obs):
